@@ -130,6 +130,8 @@ def build_ops():
         ("fmtstr('-').join(generator of str(v), v)", lambda v: [fmtstr("-").join(x for x in [str(v), v])]),
         ("v[1:1].join([v,v])", lambda v: [v[1:1].join([v, v])]),
         ("(v*0).join([v,'k'])", lambda v: [(v * 0).join([v, "k"])]),
+        ("v*-2", lambda v: [v * -2, v * -1]),
+        ("v.join([str pieces with non-SGR escape sequences])", lambda v: [v.join([v, "\x1b[?25lp", "\x1bMq"]), v.join(["\x1b]0;t\x07r", "\x9b1ms", "\x1b[31"])]),
     ]
     B = [
         ("v+w", lambda v, w: [v + w]),
@@ -308,8 +310,24 @@ def mutation_attempts(acc):
                         acc.failure("C13:attribute_mutation_changed_value:" + name, case, "before %r after %r" % (before, after))
 
 
+def twins(acc):
+    """A value's terminal string must not depend on which OTHER values were rendered earlier in the process (bool/int twin
+    attribute values, one fresh process per rendering order)."""
+    from mc import fresh
+
+    n, findings = fresh.twin_findings()
+    for _ in range(n):
+        acc.case(True)
+    acc.transitions += n
+    for kind, case, msg in findings:
+        acc.failure("C13:terminal_string_depends_on_what_was_rendered_before" if kind == "order_dependent" else "C13:terminal_string_not_what_the_runs_say", case, msg)
+
+
 def run(ctx):
     rep = Report()
+    acc = Acc(seed=ctx.seed)
+    twins(acc)
+    rep.merge(acc, "bool_int_twin_values_in_fresh_processes")
     setup_ops = build_ops()
     nfirst = len(step_choices(setup_ops[0], setup_ops[1], 3))
     for d in ctx.pmap(shard, [(ctx.tier, ctx.seed, i) for i in range(nfirst)]):
